@@ -434,10 +434,15 @@ def _do_rewrite(source: str, rewrite: _Rewrite, *, fix_function_name: str = "") 
         # Prevent whitespace-only changes from being applied
         new_code_lines = [line.rstrip() for line in new_code.splitlines() if line.strip()]
         code_lines = [line.rstrip() for line in code.splitlines() if line.strip()]
-        if new_code_lines == code_lines:
+        candidate = source[: old.start] + new_code + source[old.end :]
+        if new_code_lines == code_lines and not (
+            # Blanks that are inside a string are no layout
+            core.is_valid_python(source)
+            and core.is_valid_python(candidate)
+            and not _sources_equivalent(source, candidate)
+        ):
             return source
 
-        candidate = source[: old.start] + new_code + source[old.end :]
         if new_code or core.is_valid_python(candidate):
             choice = candidate
         else:
